@@ -57,6 +57,15 @@ Theorem C13_app_judgement_sound : forall sc, JudgeC13bP.profile_C13b sc = true -
 Proof. exact JudgeC13bP.C13_app_judgement_sound. Qed.
 
 
+(* ---- source tie, second wave (DESIGN 11.7): definitions regenerated from the Rust source coincide with the model ---- *)
+From BEI Require Generated.DataSrc Generated.CondSrc Generated.ModifSrc Proofs.SrcTie2P.
+Theorem C13_source_chord : forall look tm a c o v, look a = option_map State.d_state o -> let r := CondSrc.Chord_evaluate_src c o v in (SrcTie2P.chord_of a (fst r), snd r) = Cond.cond_eval look tm v (SrcTie2P.chord_of a c).
+Proof. exact SrcTie2P.Chord_evaluate_tie. Qed.
+
+Theorem C13_source_block_by : forall look tm a c o v, look a = option_map State.d_state o -> let r := CondSrc.BlockBy_evaluate_src c o v in (SrcTie2P.block_by_of a (fst r), snd r) = Cond.cond_eval look tm v (SrcTie2P.block_by_of a c).
+Proof. exact SrcTie2P.BlockBy_evaluate_tie. Qed.
+
+
 Print Assumptions C13_bind_order.
 Print Assumptions C13_rebind_extends.
 Print Assumptions C13_one_evaluation_per_binding.
@@ -66,3 +75,5 @@ Print Assumptions C13_chord.
 Print Assumptions C13_block_by.
 Print Assumptions C13_app_judgement_sound_upto6.
 Print Assumptions C13_app_judgement_sound.
+Print Assumptions C13_source_chord.
+Print Assumptions C13_source_block_by.
